@@ -485,20 +485,9 @@ func routeInfo(nodes []*model.Node) (nonValueXChoice string, anyChoice, containe
 // unreachableName: element names that do not survive the snake/camel round trip of common case converters
 // are a recorded finding class; the classifier here is purely lexical (digits or consecutive capitals, or a keyword).
 func lexicallyOdd(name string) bool {
-	if name == "div" {
-		return true
-	}
-	for i, c := range name {
-		if c >= '0' && c <= '9' {
-			return true
-		}
-		if i > 0 && c >= 'A' && c <= 'Z' {
-			p := name[i-1]
-			if p >= 'A' && p <= 'Z' {
-				return true
-			}
-		}
-	}
+	// (element names with digits or runs of capitals - valueBase64Binary, carrierHRF - and the keyword `div`
+	// used to be excluded while the repository could not reach them; since the repairs of section 10.2 they
+	// are walked like every other name)
 	return false
 }
 
